@@ -2,189 +2,182 @@ import DEngine.Lemmas.Meta
 /-!
 # C21 — Saved term and vote are never lost or corrupted
 
-Model: `DEngine.MetaStore` (bincode codec of `HardState`, the file operations of `FileMetaStore::save_to_file`, the
-load path, the RocksDB meta store as a WAL) over the file-system model `DEngine.Fs`. Tied to the code by the `meta`
-family: the real stores are run with crash-point callbacks between their file operations, every real image (and every
-torn prefix, and the strace'd system-call sequence) is loaded with the real load path and compared with this model.
+Model: `DEngine.MetaStore` (bincode codec of `HardState`; `FileMetaStore::save_to_file` as it is now — temp file,
+`sync_all`, `rename` over `hard_state.bin`, directory fsync —, the load path, the RocksDB meta store as a WAL) over the
+file-system model `DEngine.Fs`. Tied to the code by the `meta` family: the real stores are run with crash-point
+callbacks between their file operations, every real directory image (and every torn temp-file prefix, and the strace'd
+system-call sequence) is loaded with the real load path and compared with this model.
 
-Result for the **File** meta store as it is: the full statement `MetaOldOrNewStatement` is *false* (F20):
-`File::create` truncates `hard_state.bin` before the new bytes are written, so a crash in that window loads as
-"no state". We prove the negation from the witness, the exact characterisation of the window
-(`meta_old_or_new_partial`: outside the window old-or-new holds, inside it the state is always *missing*), that a
-saved value survives a process crash (`meta_saved_survives_process_crash`), and that under *both* crash semantics and
-for every history of saves a crash image never decodes to a state that was not saved (`meta_never_fabricated`).
-For the **RocksDB** meta store the old-or-new statement holds (`rocks_meta_old_or_new`), for power loss under the
-hypothesis that the old value had been flushed (`MetaStore::flush` = `flush_wal(true)`).
+History: until /repo ae820a7 `save_to_file` truncated `hard_state.bin` in place (`File::create` + `write_all`, no
+fsync); the old-or-new statement was false (F20: a crash between truncate and write loads as "no state" — witness
+`corpus/meta/f20.case`, kept as a regression case). With the fix the property holds at full strength:
+
+* `meta_old_or_new` — from any directory whose `hard_state.bin` is clean (every completed save leaves it so:
+  `save_clean`), every crash point of `save(new)` (op boundaries and every torn write of the temp file), process crash
+  AND power loss: the image loads as the previously saved value or as the new one;
+* `meta_old_or_new_history` — the same along every history of saves on a fresh directory;
+* `meta_old_or_new_any_start` — process crash from an arbitrary directory state (e.g. the leftovers of an earlier
+  crashed save);
+* `meta_saved_durable` — once `save` has returned the new value survives a process crash and a power loss;
+* RocksDB: `rocks_meta_old_or_new`, `rocks_meta_saved_survives_process_crash` (power loss under the hypothesis that the
+  old value had been flushed).
 -/
 namespace DEngine.C21
 open DEngine.Fs DEngine.MetaStore
 
-/-! ## File meta store -/
-
-/-- The property at full strength for the File store: start from a file holding `old` (even fully synced), run
-    `save(new)`, crash at any crash point under any semantics: the image loads as `old` or as `new`. -/
-def MetaOldOrNewStatement : Prop :=
-  ∀ (old : Option HS) (new : HS) (sem : Sem) (pt : Pt) (s : File),
-    (pt, s) ∈ crashPts (File.synced (old.map enc)) (saveOps new) →
-    ∀ img ∈ s.images sem, load img = old ∨ load img = some new
-
-/-- The crash points of one save, spelled out. -/
-theorem crashPts_save (f : File) (new : HS) :
-    crashPts f (saveOps new) =
-      (Pt.at 0, f) :: (Pt.at 1, f.push (some [])) ::
-        (tornStates 1 (f.push (some [])) (enc new) ++
-          [(Pt.at 2, (f.push (some [])).push (some (enc new))), (Pt.at 3, (f.push (some [])).push (some (enc new)))]) := by
-  simp [crashPts, crashPtsFrom, saveOps, File.step, File.content, File.push]
-
-/-- **Negation of the full statement (F20)**: old = (term 1, no vote) saved and synced, new = (term 2, no vote),
-    process crash right after `File::create`: the image is the empty file, which loads as "no state". -/
-theorem meta_old_or_new_fails : ¬ MetaOldOrNewStatement := by
-  intro h
-  have := h (some ⟨1, none⟩) ⟨2, none⟩ .process (.at 1)
-    ((File.synced (some (enc ⟨1, none⟩))).push (some []))
-    (by rw [crashPts_save]; simp) (some []) (by simp [File.images, File.push])
-  simp [load, dec] at this
-
 theorem load_map_enc (old : Option HS) : load (old.map enc) = old := by
   cases old <;> simp [load, dec_enc]
 
-/-- **Partial theorem, with the excluded trigger exact.** For every file state holding `old`, every crash point of
-    `save(new)` and the process-crash image: outside the window (after `File::create` returned, before `write_all`
-    completed) the image loads as `old` or `new`; inside the window it *always* loads as "no state". -/
-theorem meta_old_or_new_partial (f : File) (old : Option HS) (new : HS) (hf : f.vol = old.map enc)
-    (pt : Pt) (s : File) (hs : (pt, s) ∈ crashPts f (saveOps new)) :
-    (inWindow pt = false → load s.vol = old ∨ load s.vol = some new) ∧
-    (inWindow pt = true → load s.vol = none) := by
-  rw [crashPts_save] at hs
-  simp only [List.mem_cons, List.mem_append, Prod.mk.injEq, List.mem_nil_iff, or_false] at hs
-  rcases hs with ⟨rfl, rfl⟩ | ⟨rfl, rfl⟩ | hs | ⟨rfl, rfl⟩ | ⟨rfl, rfl⟩
-  · simp [inWindow, hf, load_map_enc]
-  · simp [inWindow, File.push, load, dec_nil]
-  · simp only [tornStates, List.mem_map, List.mem_range, Prod.mk.injEq] at hs
-    obtain ⟨j, hj, rfl, rfl⟩ := hs
-    have : dec ((enc new).take j) = none :=
-      dec_strict_prefix new _ (List.take_prefix _ _) (by simp [List.length_take]; omega)
-    simp [inWindow, File.step, File.push, File.content, load, this]
-  · simp [inWindow, File.push, load, dec_enc]
-  · simp [inWindow, File.push, load, dec_enc]
+/-- Encodings are prefix-free. -/
+theorem enc_prefix_eq {a b : HS} (h : enc a <+: enc b) : a = b := by
+  rcases dec_prefix b (enc a) h with h0 | h1
+  · rw [dec_enc] at h0; cases h0
+  · rw [dec_enc] at h1; injection h1
 
-/-- Non-vacuity: a crash point inside and one outside the window exist for a concrete save. -/
-example : (Pt.at 1, (File.synced (some (enc ⟨1, none⟩))).push (some [])) ∈
-    crashPts (File.synced (some (enc ⟨1, none⟩))) (saveOps ⟨2, none⟩) ∧ inWindow (Pt.at 1) = true ∧
-    inWindow (Pt.at 2) = false := by
-  rw [crashPts_save]; simp [inWindow]
+/-! ## File meta store -/
 
-/-- **Once `save` has returned, the new value survives a process crash** (whatever the file held before). -/
-theorem meta_saved_survives_process_crash (f : File) (new : HS) :
-    ∀ img ∈ (save f new).images .process, load img = some new := by
+/-- The `hard_state.bin` states a save goes through: untouched until the rename, then the renamed (content durable,
+    name not yet), then clean again. -/
+def renamedMain (m : File) (new : HS) : File :=
+  { vol := some (enc new), dur := m.dur, hist := m.hist ++ [m.vol] }
+
+theorem crash_main (d : MetaDir) (new : HS) (pt : Pt) (s : MetaDir)
+    (hs : (pt, s) ∈ dirCrashPts d (saveOps new)) :
+    s.main = d.main ∨ s.main = renamedMain d.main new ∨ s.main = File.synced (some (enc new)) := by
+  simp only [dirCrashPts, dirCrashPtsFrom, saveOps, List.mem_cons, List.mem_append, Prod.mk.injEq,
+    List.nil_append, List.mem_nil_iff, or_false] at hs
+  rcases hs with ⟨_, rfl⟩ | ⟨_, rfl⟩ | hs | ⟨_, rfl⟩ | ⟨_, rfl⟩ | ⟨_, rfl⟩ | ⟨_, rfl⟩ | ⟨_, rfl⟩
+  · exact Or.inl rfl
+  · exact Or.inl rfl
+  · simp only [tornDirs, List.mem_map, List.mem_range, Prod.mk.injEq] at hs
+    obtain ⟨j, _, _, rfl⟩ := hs
+    exact Or.inl rfl
+  · exact Or.inl rfl
+  · exact Or.inl rfl
+  · exact Or.inl rfl
+  · right; left
+    simp [MetaDir.step, File.step, File.renamedOver, File.isSynced, File.push, File.content, renamedMain]
+  · right; right
+    simp [MetaDir.step, File.step, File.renamedOver, File.isSynced, File.push, File.content]
+
+theorem images_synced (b : Option Bytes) (sem : Sem) : ∀ img ∈ (File.synced b).images sem, img = b := by
   intro img h
-  simp [save, File.run, saveOps, File.step, File.push, File.images, File.content] at h
-  simp [h, load, dec_enc]
+  cases sem with
+  | process => simpa [File.images, File.synced] using h
+  | power =>
+    cases b with
+    | none =>
+      simp [File.images, File.synced, File.versions, pairs, between] at h
+      exact h
+    | some x =>
+      simp [File.images, File.synced, File.versions, pairs, between] at h
+      exact h
 
-example : load ((save File.absent ⟨7, some ⟨3, 7, true⟩⟩).vol) = some ⟨7, some ⟨3, 7, true⟩⟩ := by
-  simpa [File.images] using meta_saved_survives_process_crash File.absent ⟨7, some ⟨3, 7, true⟩⟩
+theorem between_enc (o : Option HS) (new : HS) :
+    ∀ img ∈ between (o.map enc) (some (enc new)), img = o.map enc ∨ img = some (enc new) := by
+  intro img h
+  cases o with
+  | none => simpa [between] using h
+  | some a =>
+    simp only [Option.map_some, between] at h
+    split at h
+    · rename_i hp
+      have hab : a = new := enc_prefix_eq (List.isPrefixOf_iff_prefix.mp hp)
+      subst hab
+      simp at h
+      exact Or.inr h
+    · simpa using h
 
-/-! ### Both crash semantics, every history: an image never decodes to a state that was not saved -/
+theorem images_renamed (o : Option HS) (new : HS) (sem : Sem) :
+    ∀ img ∈ (renamedMain (File.synced (o.map enc)) new).images sem, img = o.map enc ∨ img = some (enc new) := by
+  intro img h
+  cases sem with
+  | process =>
+    simp [File.images, renamedMain] at h
+    exact Or.inr h
+  | power =>
+    simp only [File.images, renamedMain, File.synced, File.versions, List.nil_append, List.cons_append,
+      pairs, List.mem_append, List.mem_cons, List.mem_nil_iff, or_false, List.flatMap_cons, List.flatMap_nil,
+      List.append_nil] at h
+    rcases h with h | h | h | h | h
+    · exact Or.inl h
+    · exact Or.inl h
+    · exact Or.inr h
+    · -- between o o
+      have := images_synced (o.map enc) .power img (by
+        simp only [File.images, File.synced, File.versions, List.nil_append, pairs, List.flatMap_cons,
+          List.flatMap_nil, List.append_nil, List.mem_append]
+        exact Or.inr h)
+      exact Or.inl this
+    · exact between_enc o new img h
 
-/-- A version is harmless w.r.t. the saved states `H`: absent, empty, or a prefix of the encoding of a saved state. -/
-def Good (H : List HS) (v : Option Bytes) : Prop :=
-  v = none ∨ ∃ p, v = some p ∧ (p = [] ∨ ∃ h ∈ H, p <+: enc h)
-
-theorem good_load {H : List HS} {v : Option Bytes} (g : Good H v) :
-    load v = none ∨ ∃ h ∈ H, load v = some h := by
-  rcases g with rfl | ⟨p, rfl, rfl | ⟨h, hH, hp⟩⟩
-  · simp [load]
-  · simp [load, dec_nil]
-  · rcases dec_prefix h p hp with h0 | h1
-    · exact Or.inl (by simp [load, h0])
-    · exact Or.inr ⟨h, hH, by simp [load, h1]⟩
-
-theorem good_prefix {H : List HS} (y p : Bytes) (g : Good H (some y)) (hp : p <+: y) : Good H (some p) := by
-  rcases g with h | ⟨q, hq, rfl | ⟨h, hH, hq'⟩⟩
-  · simp at h
-  · injection hq with hq; subst hq
-    exact Or.inr ⟨p, rfl, Or.inl (List.prefix_nil.mp hp)⟩
-  · injection hq with hq; subst hq
-    exact Or.inr ⟨p, rfl, Or.inr ⟨h, hH, hp.trans hq'⟩⟩
-
-theorem good_mono {H H' : List HS} (hsub : ∀ h ∈ H, h ∈ H') {v : Option Bytes} (g : Good H v) : Good H' v := by
-  rcases g with h | ⟨p, hp, h | ⟨h, hH, hq⟩⟩
-  · exact Or.inl h
-  · exact Or.inr ⟨p, hp, Or.inl h⟩
-  · exact Or.inr ⟨p, hp, Or.inr ⟨h, hsub h hH, hq⟩⟩
-
-/-- Invariant of the File meta store: every version since the last sync is harmless. -/
-def Inv (H : List HS) (f : File) : Prop := ∀ v ∈ f.versions, Good H v
-
-theorem inv_crashPts (H : List HS) (f : File) (h : HS) (hi : Inv H f) (pt : Pt) (s : File)
-    (hs : (pt, s) ∈ crashPts f (saveOps h)) : Inv (H ++ [h]) s := by
-  have hi' : Inv (H ++ [h]) f := fun v hv => good_mono (by simp +contextual) (hi v hv)
-  have gnil : Good (H ++ [h]) (some []) := Or.inr ⟨[], rfl, Or.inl rfl⟩
-  have gpre : ∀ j, Good (H ++ [h]) (some ((enc h).take j)) := fun j =>
-    Or.inr ⟨_, rfl, Or.inr ⟨h, by simp, List.take_prefix _ _⟩⟩
-  have gfull : Good (H ++ [h]) (some (enc h)) := Or.inr ⟨_, rfl, Or.inr ⟨h, by simp, List.prefix_refl _⟩⟩
-  rw [crashPts_save] at hs
-  simp only [List.mem_cons, List.mem_append, Prod.mk.injEq, List.mem_nil_iff, or_false] at hs
-  rcases hs with ⟨rfl, rfl⟩ | ⟨rfl, rfl⟩ | hs | ⟨rfl, rfl⟩ | ⟨rfl, rfl⟩
-  · exact hi'
-  · intro v hv
-    simp only [versions_push, List.mem_append, List.mem_singleton] at hv
-    rcases hv with hv | rfl
-    · exact hi' v hv
-    · exact gnil
-  · simp only [tornStates, List.mem_map, List.mem_range, Prod.mk.injEq] at hs
-    obtain ⟨j, _, rfl, rfl⟩ := hs
-    intro v hv
-    simp only [File.step, versions_push, List.mem_append, List.mem_singleton] at hv
-    rcases hv with (hv | rfl) | rfl
-    · exact hi' v hv
-    · exact gnil
-    · simpa [File.content, File.push] using gpre j
-  · intro v hv
-    simp only [versions_push, List.mem_append, List.mem_singleton] at hv
-    rcases hv with (hv | rfl) | rfl
-    · exact hi' v hv
-    · exact gnil
-    · exact gfull
-  · intro v hv
-    simp only [versions_push, List.mem_append, List.mem_singleton] at hv
-    rcases hv with (hv | rfl) | rfl
-    · exact hi' v hv
-    · exact gnil
-    · exact gfull
-
-theorem save_mem_crashPts (f : File) (h : HS) : (Pt.at 3, save f h) ∈ crashPts f (saveOps h) := by
-  rw [crashPts_save]
-  simp [save, File.run, saveOps, File.step, File.push, File.content]
-
-theorem inv_runSaves (hs : List HS) : ∀ (H : List HS) (f : File), Inv H f → Inv (H ++ hs) (runSaves f hs) := by
-  induction hs with
-  | nil => intro H f hi; simpa [runSaves] using hi
-  | cons h rest ih =>
-    intro H f hi
-    have h1 : Inv (H ++ [h]) (save f h) := inv_crashPts H f h hi _ _ (save_mem_crashPts f h)
-    have := ih (H ++ [h]) (save f h) h1
-    simpa [runSaves, List.append_assoc] using this
-
-theorem inv_absent : Inv [] File.absent := by
-  intro v hv
-  simp [File.versions, File.absent] at hv
-  exact Or.inl hv
-
-/-- **No fabricated state, full strength**: after any history of saves on a fresh store, a crash at any crash point of
-    a further `save(new)` — process crash or power loss (no fsync is ever issued, so every unsynced version and every
-    torn append is a possible image) — loads as "no state" or as one of the states that were actually saved. -/
-theorem meta_never_fabricated (hist : List HS) (new : HS) (sem : Sem) (pt : Pt) (s : File)
-    (hs : (pt, s) ∈ crashPts (runSaves File.absent hist) (saveOps new)) :
-    ∀ img ∈ s.images sem, load img = none ∨ ∃ h ∈ hist ++ [new], load img = some h := by
-  have hinv : Inv (hist ++ [new]) s :=
-    inv_crashPts hist _ new (by simpa using inv_runSaves hist [] File.absent inv_absent) pt s hs
+/-- **Old-or-new, full strength**: clean directory holding `old`, any crash point of `save(new)` (incl. torn temp
+    writes), both crash semantics. -/
+theorem meta_old_or_new (d : MetaDir) (old : Option HS) (new : HS) (hd : d.main = File.synced (old.map enc))
+    (sem : Sem) (pt : Pt) (s : MetaDir) (hs : (pt, s) ∈ dirCrashPts d (saveOps new)) :
+    ∀ img ∈ s.main.images sem, load img = old ∨ load img = some new := by
   intro img himg
-  exact good_load (images_of_versions (Good (hist ++ [new])) s hinv (fun y p => good_prefix y p) sem img himg)
+  have key : img = old.map enc ∨ img = some (enc new) := by
+    rcases crash_main d new pt s hs with h | h | h
+    · rw [h, hd] at himg; exact Or.inl (images_synced _ sem img himg)
+    · rw [h, hd] at himg; exact images_renamed old new sem img himg
+    · rw [h] at himg; exact Or.inr (images_synced _ sem img himg)
+  rcases key with rfl | rfl
+  · exact Or.inl (load_map_enc old)
+  · exact Or.inr (by simp [load, dec_enc])
 
-/-- Non-vacuity + the power-loss half of F20: after two completed saves a power-loss image may be the absent file. -/
-example : none ∈ (runSaves File.absent [⟨1, none⟩, ⟨2, none⟩]).images .power := by
-  simp [runSaves, save, File.run, saveOps, File.step, File.push, File.images, File.versions, File.absent]
+/-- A completed save leaves `hard_state.bin` clean, whatever the directory looked like before. -/
+theorem save_clean (d : MetaDir) (new : HS) : (save d new).main = File.synced (some (enc new)) := by
+  simp [save, MetaDir.run, saveOps, MetaDir.step, File.step, File.renamedOver, File.isSynced, File.push, File.content]
+
+theorem runSaves_clean (hs : List HS) : ∀ (d : MetaDir) (o : Option HS), d.main = File.synced (o.map enc) →
+    (runSaves d hs).main = File.synced ((if hs = [] then o else hs.getLast?).map enc) := by
+  induction hs with
+  | nil => intro d o h; simpa [runSaves] using h
+  | cons h rest ih =>
+    intro d o _
+    have := ih (save d h) (some h) (by simp [save_clean])
+    simp only [runSaves, List.foldl_cons] at this ⊢
+    rw [this]
+    cases rest with
+    | nil => simp
+    | cons r rs => simp [List.getLast?_cons_cons]
+
+/-- **Old-or-new along every history** of saves on a fresh directory. -/
+theorem meta_old_or_new_history (hist : List HS) (new : HS) (sem : Sem) (pt : Pt) (s : MetaDir)
+    (hs : (pt, s) ∈ dirCrashPts (runSaves MetaDir.fresh hist) (saveOps new)) :
+    ∀ img ∈ s.main.images sem, load img = hist.getLast? ∨ load img = some new := by
+  have hclean := runSaves_clean hist MetaDir.fresh none rfl
+  have hold : (if hist = [] then (none : Option HS) else hist.getLast?) = hist.getLast? := by
+    cases hist <;> simp
+  rw [hold] at hclean
+  exact meta_old_or_new _ hist.getLast? new hclean sem pt s hs
+
+/-- **Process crash from an arbitrary directory state** whose `hard_state.bin` currently shows `old` (e.g. the leftovers
+    of an earlier crashed save: stale temp file, rename not yet durable). -/
+theorem meta_old_or_new_any_start (d : MetaDir) (old : Option HS) (new : HS) (hv : d.main.vol = old.map enc)
+    (pt : Pt) (s : MetaDir) (hs : (pt, s) ∈ dirCrashPts d (saveOps new)) :
+    ∀ img ∈ s.main.images .process, load img = old ∨ load img = some new := by
+  intro img himg
+  simp only [File.images, List.mem_singleton] at himg
+  rcases crash_main d new pt s hs with h | h | h
+  · rw [himg, h, hv]; exact Or.inl (load_map_enc old)
+  · rw [himg, h]; exact Or.inr (by simp [renamedMain, load, dec_enc])
+  · rw [himg, h]; exact Or.inr (by simp [File.synced, load, dec_enc])
+
+/-- **Once `save` has returned, the new value survives a process crash and a power loss** — from any directory. -/
+theorem meta_saved_durable (d : MetaDir) (new : HS) (sem : Sem) :
+    ∀ img ∈ (save d new).main.images sem, load img = some new := by
+  intro img h
+  rw [save_clean] at h
+  rw [images_synced _ sem img h]
+  simp [load, dec_enc]
+
+/-- Non-vacuity: right after the rename the durable image may still be the old value while the volatile one is
+    already the new one — both are possible power-loss images of that crash point. -/
+example : some (enc ⟨1, none⟩) ∈ (renamedMain (File.synced (some (enc ⟨1, none⟩))) ⟨2, none⟩).images .power ∧
+    some (enc ⟨2, none⟩) ∈ (renamedMain (File.synced (some (enc ⟨1, none⟩))) ⟨2, none⟩).images .power := by
+  simp [renamedMain, File.synced, File.images, File.versions]
 
 /-! ## RocksDB meta store -/
 
